@@ -51,17 +51,41 @@ def run(ctx):
                    "R20.1", "integrate[start value]",
                    "the value that reaches integrated_signal[0] at the return is start_value (the stepping loop starts at 1 "
                    "and never rewrites index 0)", f.loc(), derived=e0, required=start)
-    be = L.body_env
-    need = ("stencil", "stencil_width", "number_of_implicit_points", "curr_dt", "future_dt")
-    if any(k not in be.vars for k in need):
-        # variable names are not anchors: fall back to inconclusive, never a violation
-        ctx.unsure("R20.2", "integrate[fallback]", "loop body does not expose the stencil selection under the known names",
+    # Everything else is read off the step itself, not off local variable names: the carried output array's final value
+    # is store(out, i, out[i-1] + dt * sum_j S[j - js] * signal[i + j]) over range(js, je)
+    step = _parse_step(L, lv, signal)
+    if step is None:
+        ctx.unsure("R20.2", "integrate[fallback]", "the step is not of the form out[i] = out[i-1] + dt * sum_j w[j-js]*signal[i+j]",
                    L.loc)
         ctx.absorb(it)
         return
-    S, width, nimp, curr_dt, future_dt = (T.to_term(be.vars[k]) for k in need)
-    prev_c = L.carried.get("prev_dt", (None, None, None))[1]
-    restart_c = L.carried.get("restart", (None, None, None))[1]
+    S, js_t, nimp, curr_dt, jj_sym, out_sym, out_fin = step
+    width = nimp - js_t
+    C0 = S.args[0] if fname(S) == "ite" else None
+    absd = [x for x in (T.subterms(C0) if C0 is not None else []) if isinstance(x, sp.Abs)]
+    carried_syms = {c[1]: nm for nm, c in L.carried.items() if c[1] is not None}
+    prev_c = restart_c = future_dt = None
+    restart_name = None
+    if len(absd) == 1 and isinstance(absd[0].args[0], sp.Add):
+        inside = absd[0].args[0]
+        cs = [x for x in inside.free_symbols if x in carried_syms]
+        lin = [x for x in cs if sp.expand(inside).coeff(x) in (1, -1) and x not in (sp.expand(inside) - sp.expand(inside).coeff(x) * x).free_symbols]
+        if len(lin) == 1:
+            prev_c = lin[0]
+            future_dt = T.resimplify((sp.expand(inside) - sp.expand(inside).coeff(prev_c) * prev_c) * (-sp.expand(inside).coeff(prev_c)))
+    one_sided = None
+    if C0 is not None and not absd:
+        # no |.|: a single ordering comparison on a difference with a carried time step tests one sign of the jitter only
+        cmps = [x for x in T.subterms(C0) if fname(x) in ("lt", "gt", "le", "ge") and any(
+            c in x.free_symbols and carried_syms[c] in L.carried and not isinstance(L.carried[carried_syms[c]][0], bool)
+            and T.to_term(L.carried[carried_syms[c]][2]).has(time) for c in carried_syms)]
+        if len(cmps) == 1:
+            one_sided = cmps[0]
+    if C0 is not None:
+        flags = [x for x in C0.free_symbols if x in carried_syms and x != prev_c]
+        if len(flags) == 1:
+            restart_c = flags[0]
+            restart_name = carried_syms[restart_c]
     primary = op("stencil", order, n)
     # R20.2 fallback selection
     if fname(S) != "ite":
@@ -76,6 +100,10 @@ def run(ctx):
                   "otherwise the requested (order, n) stencil", interp=it)
         ctx.equiv("R20.2", "integrate[fallback width]", width, T.ITE(C, sp.Integer(2), op("len", primary)), L.loc, interp=it)
         ctx.equiv("R20.2", "integrate[fallback implicit points]", nimp, T.ITE(C, sp.Integer(1), n), L.loc, interp=it)
+        if one_sided is not None:
+            ctx.bad("R20.2", "integrate[jitter forces fallback]", "the fallback is selected by a one-sided comparison: a time step that "
+                    "shrinks (or grows) by more than 1% is not detected, so the uniform-step stencil is applied across it", L.loc,
+                    derived=one_sided, required="|future_dt - prev_dt| > 0.01*curr_dt")
         if prev_c is not None:
             J = CMP("gt", sp.Abs(future_dt - prev_c), sp.Rational(1, 100) * curr_dt)
             present = J in set(T.subterms(C))
@@ -96,7 +124,7 @@ def run(ctx):
                 # the count of jitter-free steps restarts at a jitter: its next value must not depend on what was counted
                 # before, and the high-order stencil is re-enabled only once that count reaches the stencil width
                 cands = [(nm, c) for nm, c in L.carried.items() if c[1] is not None and c[1] != restart_c and c[1] != prev_c
-                         and c[0] == 0 and c[1] in T.to_term(L.carried["restart"][2]).free_symbols]
+                         and c[0] == 0 and c[1] in T.to_term(L.carried[restart_name][2]).free_symbols]
                 if len(cands) != 1:
                     ctx.unsure("R20.2", "integrate[jitter restarts the count]", "no single step counter feeds the restart flag", L.loc)
                 else:
@@ -107,7 +135,7 @@ def run(ctx):
                                f"after a jittered step the number of constant steps counted so far (`{cnm}`) does not depend on the "
                                "count before the jitter, so the high-order stencil cannot be re-enabled by steps that precede it",
                                L.loc, derived=underJ)
-                    rfin = T.to_term(L.carried["restart"][2])
+                    rfin = T.to_term(L.carried[restart_name][2])
                     reach = CMP("eq", T.resimplify(T.assume(cfin, {C: True})), op("len", primary))
                     reach_s = [x for x in T.subterms(rfin) if fname(x) == "eq" and csym in x.free_symbols]
                     okre = len(reach_s) >= 1 and all(T.equivalent(x, reach) == T.Verdict.EQUAL for x in reach_s)
@@ -116,33 +144,23 @@ def run(ctx):
                                "the restart flag is cleared only when the updated count equals the width of the requested stencil, "
                                "and stays set on a jittered step otherwise", L.loc, derived=str([T.show(x, 80) for x in reach_s]),
                                required=reach)
-    ctx.equiv("R20.2", "integrate[curr_dt]", curr_dt, op("item", time, lv) - op("item", time, lv - 1), L.loc, interp=it)
+    ctx.equiv("R20.3", "integrate[step size]", curr_dt, op("item", time, lv) - op("item", time, lv - 1), L.loc,
+              "the step is multiplied by the current time step time[i] - time[i-1]", interp=it)
     # R20.3 step shape
-    inner = [x for x in it.loops if x.func == f.qualname and x is not L]
-    sig_c = L.carried.get("integrated_signal")
-    arrs = [(nm, c) for nm, c in L.carried.items() if c[1] is not None and fname(T.to_term(c[2])) == "store"
-            and T.to_term(c[2]).args[0] == c[1]]
-    if len(inner) != 1 or len(arrs) != 1:
-        ctx.unsure("R20.3", "integrate[step]", "expected one stencil loop and one output array", L.loc)
-    else:
-        jj = inner[0].lv
-        nm, (orig, csym, fin) = arrs[0]
-        js = -(width - nimp)
-        ref = op("store", csym, lv, op("item", csym, lv - 1) + curr_dt * op(
-            "loopsum", op("item", S, jj - js) * op("item", signal, lv + jj), jj, op("range", js, nimp)))
-        ctx.equiv("R20.3", "integrate[step]", fin, ref, L.loc,
-                  "out[i] == out[i-1] + curr_dt * sum_j stencil[j-jstart]*signal[i+j]", interp=it)
-    align = None
-    if len(inner) == 1 and len(arrs) == 1:
-        # node of the stencil that multiplies signal[i] on the high-order branch: -jstart with the primary width / n
-        align = T.resimplify(T.assume(-js, {C: False})) if fname(S) == "ite" else None
+    js = -(width - nimp)
+    ref = op("store", out_sym, lv, op("item", out_sym, lv - 1) + curr_dt * op(
+        "loopsum", op("item", S, jj_sym - js) * op("item", signal, lv + jj_sym), jj_sym, op("range", js, nimp)))
+    ctx.equiv("R20.3", "integrate[step]", out_fin, ref, L.loc,
+              "out[i] == out[i-1] + curr_dt * sum_j stencil[j-jstart]*signal[i+j]", interp=it)
+    # node of the stencil that multiplies signal[i] on the high-order branch: -jstart with the primary width / n
+    align = T.resimplify(T.assume(-js, {C0: False})) if C0 is not None else None
     stencil_definition_rules(ctx, p, align, order, n)
     envres.check_ext_used(ctx, it, "R20.4", "integrate")
     ctx.absorb(it)
     ctx.notes.extend(it.unknown_notes[:5])
     ctx.require_count("R20.1", 1)
-    ctx.require_count("R20.2", 10)
-    ctx.require_count("R20.3", 1)
+    ctx.require_count("R20.2", 9)
+    ctx.require_count("R20.3", 2)
     ctx.require_count("R20.5", 11)
 
 
@@ -264,3 +282,32 @@ def stencil_definition_rules(ctx, p, align, order, n):
             ctx.expect(okres, R, "lagrange_base_polynomial_coef[result]", "returns the coefficient array divided by the denominator",
                        f.loc(), derived=T.show(r, 160))
     ctx.absorb(it)
+
+
+def _parse_step(L, lv, signal):
+    """(S, jstart, jend, dt, j, out, final) from the loop-carried output array, or None"""
+    arrs = [(nm, c) for nm, c in L.carried.items() if c[1] is not None and fname(T.to_term(c[2])) == "store"
+            and T.to_term(c[2]).args[0] == c[1]]
+    if len(arrs) != 1:
+        return None
+    nm, (orig, out, fin) = arrs[0]
+    fin = T.to_term(fin)
+    if fin.args[1] != lv:
+        return None
+    inc = sp.expand(fin.args[2] - op("item", out, lv - 1))
+    sums = T.find_ops(inc, "loopsum")
+    if len(sums) != 1 or out in inc.free_symbols:
+        return None
+    ls = sums[0]
+    dt = sp.cancel(inc / ls) if inc != 0 else None
+    if dt is None or T.find_ops(dt, "loopsum"):
+        return None
+    X, jj, rng = ls.args[:3]
+    if fname(rng) != "range" or len(rng.args) != 2 or not isinstance(X, sp.Mul):
+        return None
+    items = [a for a in X.args if fname(a) == "item"]
+    sig = [a for a in items if a.args[0] == signal]
+    wts = [a for a in items if a.args[0] != signal]
+    if len(sig) != 1 or len(wts) != 1 or len(X.args) != 2:
+        return None
+    return wts[0].args[0], rng.args[0], rng.args[1], dt, jj, out, fin
